@@ -86,6 +86,12 @@ WITNESSES = [
     {"match": r"infix\.(operator_arm|left_associate)", "kind": "run", "props": ["C03"],
      "input": "println(string_repr(10 - 1 - 1 - 1))\nprintln(string_repr(100 / 2 / 5 / 2))\nprintln(string_repr(2 * 3 + 4 - 1 * 2))\nprintln(string_repr(10 - (1 - 1) - 1))\nprintln(string_repr(1 - 2 - 3 - 4 - 5))",
      "expect": {"stdout": "7\n5\n18\n9\n-13"}, "note": "chains of three or more operators group to the left"},
+    {"match": r"infix\.", "kind": "run", "props": ["C03"],
+     "input": "fun pick(n: Int): Int { n }\nprintln(string_repr(1 + (10 - 3 - 2)))\nprintln(string_repr(1 + pick(100 / 10 / 5)))\nprintln(string_repr(1 + [20 - 5 - 3].len() + [10 - 3 - 2].get(0).or_value(0)))\n"
+              "println(string_repr(1 + if True { 10 - 3 - 2 } else { 0 }))\nprintln(\"v=\" ^ string_repr(10 - 3 - 2))\nprintln(string_repr(2 * (1 + (10 - 3 - 2 - 1))))\nprintln(string_repr((10 - 3 - 2) * 2))\n"
+              "println(string_repr(1 + match Some(9) { Some(v) => v - 3 - 2, None => 0 }))\nprintln(string_repr(1 + (fun(k: Int) { k - 3 - 2 })(10)))\n",
+     "expect": {"stdout": "6\n3\n7\n6\nv=5\n10\n10\n5\n6"},
+     "note": "a chain nested in parentheses, call arguments, a list, an if / match / closure body inside the right operand of another operator still groups to the left"},
 ]
 
 
